@@ -20,8 +20,9 @@ def run(tier, seed, repo, focus=None):
             if name in ("HDDDM", "CDBD") and db == 1:
                 continue
             for s in range(3 if quick else 10):
-                scns.append({"det": name, "variant": v, "seed": seed + s, "n": 10,
-                             "decisions": not (name in ("HDDDM", "CDBD") and db == 2)})
+                for blocky in (False, True):
+                    scns.append({"det": name, "variant": v, "seed": seed + s, "n": 10, "blocky": blocky,
+                                 "decisions": not (name in ("HDDDM", "CDBD") and db == 2)})
     drivers.run_scenarios(res, "row_order", scns, known)
     scns = []
     for s in range(6 if quick else 30):
